@@ -129,6 +129,13 @@ def run(ctx):
                 stats["switches"] += 1
                 if not d["normalize"]:
                     bad(c, "no fresh unit momentum at the switch draw %d" % k)
+            if not d["diverging"] and d.get("average_step_size") is not None and d["num_steps"] > 0:
+                # a draw without divergence integrates for exactly num_base * eps, with or without retries
+                eps_ = b2f(d["step_size"])
+                t_impl = b2f(d["average_step_size"]) * d["num_steps"] / eps_
+                if abs(t_impl - num_base(c)) > 1e-9 * max(1.0, num_base(c)):
+                    bad(c, "draw %d is not divergent but integrated for %r step sizes in %d steps; max(1, round(f*L/eps)) = %d" % (
+                        k, t_impl, d["num_steps"], num_base(c)), {"draw": k, "evals": d["evals"]})
             if d["diverging"]:
                 stats["divergent_draws"] += 1
                 if d["pos"] != d["prev_pos"]:
